@@ -279,7 +279,7 @@ def eval_model(ck, cases, shard=40):
 
 def alt_builders(ck, binp):
     """column-store / column-index / stream shard-key builders under the direct oracle only (no model)"""
-    n = 150 if ck.tier == "quick" else 4000
+    n = 500 if ck.tier == "quick" else 6000
     rc, out = ck.run([binp, "alt", str(n)], timeout=900)
     cases = []
     for l in out.splitlines():
